@@ -67,7 +67,48 @@ async fn main() {
             }
         }
     }
+    // two stream handles on the same topic (each `Node::stream` call builds its own Acked over the same persisted cursor):
+    // acks alternate between the handles; the persisted cursor must still be the pointwise maximum of everything acked
+    for p in perms(5) {
+        let seqs = [0u32, 1, 2, 3, 4];
+        let store = SqliteStore::temporary().await;
+        let handles = [Acked::new(store.clone(), topic), Acked::new(store.clone(), topic)];
+        let reader = Acked::new(store.clone(), topic);
+        let mut max = None;
+        for (k, i) in p.iter().enumerate() {
+            for which in [k % 2, (k / 2) % 2] {
+                let _ = handles[which].ack(header(&alice, topic, seqs[*i])).await;
+                n += 1;
+                max = Some(max.map_or(seqs[*i], |m: u32| m.max(seqs[*i])));
+                let got = state(&reader).await.get(&(alice.verifying_key(), LogId::from_topic(topic))).copied();
+                if got != max && reported.insert("persisted-cursor-moved-backwards") {
+                    rp_core::report(true, "persisted-cursor-moved-backwards", json!({"two_handles_on_one_topic": true, "acked_seqs_in_order": p.iter().take(k + 1).map(|i| seqs[*i]).collect::<Vec<_>>(), "handle_of_this_ack": which}),
+                        json!({"persisted_height": got, "maximum_acked": max}), &obl);
+                }
+            }
+        }
+    }
+    // a persisted cursor that already tracks a log of ANOTHER topic (e.g. handed in by the application): an ack for an
+    // operation of that other topic must still be rejected and leave the cursor unchanged
+    {
+        use p2panda_store::{Transaction, cursors::CursorStore};
+        let store = SqliteStore::temporary().await;
+        let acked = Acked::new(store.clone(), topic);
+        let mut c = acked.cursor().await.unwrap();
+        c.advance(alice.verifying_key(), LogId::from_topic(topic), 1);
+        c.advance(alice.verifying_key(), LogId::from_topic(other), 2);
+        let permit = store.begin().await.unwrap();
+        CursorStore::<VerifyingKey, LogId>::set_cursor(&store, &c).await.unwrap();
+        store.commit(permit).await.unwrap();
+        let before = state(&acked).await;
+        let r = acked.ack(header(&alice, other, 7)).await;
+        let after = state(&acked).await;
+        n += 1;
+        let inp = json!({"persisted_cursor_tracks": ["own topic log at 1", "other topic's log at 2"], "ack": "operation 7 of the other topic"});
+        if r.is_ok() && reported.insert("ack-of-other-topic-accepted") { rp_core::report(true, "ack-of-other-topic-accepted", inp.clone(), json!({"result": "Ok"}), &obl); }
+        if after != before && reported.insert("ack-of-other-topic-changes-cursor") { rp_core::report(true, "ack-of-other-topic-changes-cursor", inp, json!({"before": before.values().collect::<Vec<_>>(), "after": after.values().collect::<Vec<_>>()}), &obl); }
+    }
     println!("{}", json!({"summary": true, "evaluations": n, "distinct_nontrivial": n, "exhaustive": true,
-        "rule": "all 720 orders of 6 acks (2 authors, own topic + one foreign-topic ack, duplicate and lower heights) through the real Acked on SqliteStore::temporary(); persisted cursor compared with the pointwise maximum after every ack",
+        "rule": "two handles on one topic acking alternately (all orders of 5 heights); a stored cursor that tracks a foreign log; all 720 orders of 6 acks (2 authors, own topic + one foreign-topic ack, duplicate and lower heights) through the real Acked on SqliteStore::temporary(); persisted cursor compared with the pointwise maximum after every ack",
         "bound": "6 acks, 2 authors, 2 topics", "violating_classes": reported}));
 }
